@@ -255,6 +255,34 @@ theorem extendPairs_fst (o : AccOpts) (l : String) (e : DMat n n R)
   unfold extendPairs
   cases o.asStart <;> simp [List.map_map, Function.comp_def]
 
+theorem bind_ok {α β : Type} {m : M? α} {f : α → M? β} {y : β} (h : (m >>= f) = .ok y) :
+    ∃ x, m = .ok x ∧ f x = .ok y := by
+  cases m with
+  | error e => cases h
+  | ok x => exact ⟨x, rfl, h⟩
+
+theorem specBody_ok {ρ : Rep n R} {a : Aut V} {o : AccOpts} {k : Nat} {wl : V × String}
+    {part : List (String × DMat n n R)} (h : ρ.specBody a o k wl = .ok part) :
+    ∃ r e, ρ.accSpec a o k wl.1 = .ok r ∧ ρ.edgeElt o wl.2 = .ok e ∧
+      part = extendPairs o wl.2 e r := by
+  unfold specBody at h
+  obtain ⟨r, hr, h⟩ := bind_ok h
+  obtain ⟨e, he, h⟩ := bind_ok h
+  cases h
+  exact ⟨r, e, hr, he, rfl⟩
+
+/-- inversion of the specification at `length > 0` -/
+theorem accSpec_succ_ok {ρ : Rep n R} {a : Aut V} {o : AccOpts} {k : Nat} {v : V}
+    {pairs : List (String × DMat n n R)} (h : ρ.accSpec a o (k + 1) v = .ok pairs) :
+    ∃ edges parts, a.adj o.asStart v = .ok edges ∧
+      List.Forall₂ (fun wl part => ρ.specBody a o k wl = .ok part) edges parts ∧
+      pairs = (if o.maxlen then zeroPairs a o v else []) ++ parts.flatten := by
+  rw [accSpec_succ] at h
+  obtain ⟨edges, he, h⟩ := bind_ok h
+  obtain ⟨parts, hp, h⟩ := bind_ok h
+  cases h
+  exact ⟨edges, parts, he, (mapM_ok_iff _ _ _).1 hp, rfl⟩
+
 /-- one round of the loop, given the recursive call's answer -/
 theorem accBody_ok (ρ : Rep n R) (o : AccOpts)
     (recur : AccOpts → Option V → Memo V n R → M? (AccRes n R × Memo V n R))
@@ -357,7 +385,8 @@ theorem foldlM_agrees (ρ : Rep n R) (a : Aut V) (o : AccOpts) (k : Nat)
 theorem acceptedZero_some (ρ : Rep n R) (a : Aut V) (o : AccOpts) (v : V) :
     ρ.acceptedZero a o (some v) = toRes o (zeroPairs a o v) := by
   unfold acceptedZero zeroPairs toRes
-  cases o.asStart || a.starts.contains v <;> cases o.withWords <;> rfl
+  dsimp only
+  cases hb : (o.asStart || a.starts.contains v) <;> cases o.withWords <;> simp
 
 theorem acceptedZero_none (ρ : Rep n R) (a : Aut V) (o : AccOpts) :
     ρ.acceptedZero a o none = toRes o [("", DMat.one)] := by
@@ -491,6 +520,126 @@ theorem accepted_agrees_none (ρ : Rep n R) (a : Aut V) (L : Nat) (o : AccOpts)
       obtain ⟨pairs, hp, hr⟩ := hm (k + 1) none r hg
       rw [hp]
       exact ⟨memo, by rw [hr], hm⟩
+
+
+/-! ### corollaries in `→` form -/
+
+theorem Agrees.sound {o : AccOpts} {P : Memo V n R → Prop} {x : M? (AccRes n R × Memo V n R)}
+    {spec : M? (List (String × DMat n n R))} (h : Agrees o P x spec)
+    {res : AccRes n R} {memo' : Memo V n R} (hx : x = .ok (res, memo')) :
+    (∃ pairs, spec = .ok pairs ∧ res = toRes o pairs) ∧ P memo' := by
+  cases spec with
+  | error e =>
+    simp only [Agrees] at h
+    rw [h] at hx
+    cases hx
+  | ok pairs =>
+    obtain ⟨m, h1, h2⟩ := h
+    rw [h1] at hx
+    cases hx
+    exact ⟨⟨pairs, rfl, rfl⟩, h2⟩
+
+theorem Agrees.complete {o : AccOpts} {P : Memo V n R → Prop}
+    {x : M? (AccRes n R × Memo V n R)}
+    {spec : M? (List (String × DMat n n R))} (h : Agrees o P x spec)
+    {pairs : List (String × DMat n n R)} (hs : spec = .ok pairs) :
+    ∃ memo', x = .ok (toRes o pairs, memo') ∧ P memo' := by
+  subst hs
+  exact h
+
+theorem Agrees.error {o : AccOpts} {P : Memo V n R → Prop}
+    {x : M? (AccRes n R × Memo V n R)}
+    {spec : M? (List (String × DMat n n R))} (h : Agrees o P x spec)
+    {e : Err} (hs : spec = .error e) : x = .error e := by
+  subst hs
+  exact h
+
+/-- **memo soundness** (`state` given): a correct `precomputed` dict yields the specified
+result and stays correct -/
+theorem memo_sound (ρ : Rep n R) (a : Aut V) (L : Nat) (o : AccOpts) (v : V)
+    (memo memo' : Memo V n R) (res : AccRes n R) (hm : MemoOK ρ a o memo)
+    (h : ρ.accepted a L o (some v) memo = .ok (res, memo')) :
+    (∃ pairs, ρ.accSpec a o L v = .ok pairs ∧ res = toRes o pairs) ∧ MemoOK ρ a o memo' :=
+  (accepted_agrees ρ a L o v memo hm).sound h
+
+/-- **memo completeness**: whenever the specification has a value, so has the memoised code -/
+theorem memo_complete (ρ : Rep n R) (a : Aut V) (L : Nat) (o : AccOpts) (v : V)
+    (memo : Memo V n R) (pairs : List (String × DMat n n R)) (hm : MemoOK ρ a o memo)
+    (h : ρ.accSpec a o L v = .ok pairs) :
+    ∃ memo', ρ.accepted a L o (some v) memo = .ok (toRes o pairs, memo') ∧ MemoOK ρ a o memo' :=
+  (accepted_agrees ρ a L o v memo hm).complete h
+
+/-- `state=None` -/
+theorem memo_sound_none (ρ : Rep n R) (a : Aut V) (L : Nat) (o : AccOpts)
+    (memo memo' : Memo V n R) (res : AccRes n R)
+    (hm : MemoOK ρ a { o with asStart := true } memo)
+    (h : ρ.accepted a L o none memo = .ok (res, memo')) :
+    (∃ pairs, ρ.accSpecO a { o with asStart := true } L none = .ok pairs ∧
+        res = toRes o pairs) ∧ MemoOK ρ a { o with asStart := true } memo' :=
+  (accepted_agrees_none ρ a L o memo hm).sound h
+
+/-- the empty `precomputed` dict (`precomputed=None`) -/
+theorem accepted_nil_agrees (ρ : Rep n R) (a : Aut V) (L : Nat) (o : AccOpts) (v : V) :
+    Agrees o (MemoOK ρ a o) (ρ.accepted a L o (some v) []) (ρ.accSpec a o L v) :=
+  accepted_agrees ρ a L o v [] (memoOK_nil ρ a o)
+
+theorem accepted_nil (ρ : Rep n R) (a : Aut V) (L : Nat) (o : AccOpts) (v : V)
+    (memo' : Memo V n R) (res : AccRes n R)
+    (h : ρ.accepted a L o (some v) [] = .ok (res, memo')) :
+    (∃ pairs, ρ.accSpec a o L v = .ok pairs ∧ res = toRes o pairs) ∧ MemoOK ρ a o memo' :=
+  memo_sound ρ a L o v [] memo' res (memoOK_nil ρ a o) h
+
+/-! ### the public wrapper `automaton_accepted` -/
+
+/-- the options `automaton_accepted` passes down -/
+def topOpts (maxlen withWords : Bool) (endState : Option V) (edgeWords : Bool) : AccOpts :=
+  ⟨maxlen, withWords, endState.isNone, edgeWords⟩
+
+/-- specification of `automaton_accepted` -/
+def topSpec (ρ : Rep n R) (a : Aut V) (L : Nat) (maxlen withWords : Bool)
+    (startState endState : Option V) (edgeWords : Bool) : M? (List (String × DMat n n R)) :=
+  match startState, endState with
+  | some _, some _ => .error "ValueError"
+  | _, some e => ρ.accSpec a ⟨maxlen, withWords, false, edgeWords⟩ L e
+  | s, none => ρ.accSpecO a ⟨maxlen, withWords, true, edgeWords⟩ L s
+
+/-- **`automaton_accepted`**: for every choice of `start_state` / `end_state` (both:
+`ValueError`), `maxlen`, `with_words`, `edge_words` and every correct `precomputed` dict, the
+public method returns exactly the specified pairs (or fails exactly like the specification)
+and leaves a correct dict behind. -/
+theorem automatonAccepted_agrees (ρ : Rep n R) (a : Aut V) (L : Nat) (maxlen withWords : Bool)
+    (startState endState : Option V) (memo : Memo V n R) (edgeWords : Bool)
+    (hm : MemoOK ρ a (topOpts maxlen withWords endState edgeWords) memo) :
+    Agrees (topOpts maxlen withWords endState edgeWords)
+      (MemoOK ρ a (topOpts maxlen withWords endState edgeWords))
+      (ρ.automatonAccepted a L maxlen withWords startState endState memo edgeWords)
+      (ρ.topSpec a L maxlen withWords startState endState edgeWords) := by
+  cases endState with
+  | some e =>
+    cases startState with
+    | some s => rfl
+    | none => exact accepted_agrees ρ a L _ e memo hm
+  | none =>
+    cases startState with
+    | some s => exact accepted_agrees ρ a L _ s memo hm
+    | none => exact accepted_agrees_none ρ a L ⟨maxlen, withWords, true, edgeWords⟩ memo hm
+
+theorem automatonAccepted_both (ρ : Rep n R) (a : Aut V) (L : Nat) (maxlen withWords : Bool)
+    (s e : V) (memo : Memo V n R) (edgeWords : Bool) :
+    ρ.automatonAccepted a L maxlen withWords (some s) (some e) memo edgeWords =
+      .error "ValueError" := rfl
+
+/-- soundness form of `automatonAccepted_agrees` -/
+theorem automatonAccepted_sound (ρ : Rep n R) (a : Aut V) (L : Nat) (maxlen withWords : Bool)
+    (startState endState : Option V) (memo memo' : Memo V n R) (edgeWords : Bool)
+    (res : AccRes n R)
+    (hm : MemoOK ρ a (topOpts maxlen withWords endState edgeWords) memo)
+    (h : ρ.automatonAccepted a L maxlen withWords startState endState memo edgeWords =
+      .ok (res, memo')) :
+    (∃ pairs, ρ.topSpec a L maxlen withWords startState endState edgeWords = .ok pairs ∧
+      res = toRes (topOpts maxlen withWords endState edgeWords) pairs) ∧
+    MemoOK ρ a (topOpts maxlen withWords endState edgeWords) memo' :=
+  (automatonAccepted_agrees ρ a L maxlen withWords startState endState memo edgeWords hm).sound h
 
 end Rep
 end GT
